@@ -103,7 +103,7 @@ if engine == "seq":
     os.makedirs(gen, exist_ok=True)
     rel = "internal/ctlog/ctlog.go"
     src = open(os.path.join(repo, rel)).read()
-    new, n = re.subn(r'^([ \t]*)(\w+)\.poolMu\.Lock\(\)[ \t]*$', r'\1verifYield(&\2.poolMu)\n\1\2.poolMu.Lock()', src, flags=re.M)
+    new, n = re.subn(r'^([ \t]*)(\w+)\.(poolMu|rootsMu)\.Lock\(\)[ \t]*$', r'\1verifYield(&\2.\3)\n\1\2.\3.Lock()', src, flags=re.M)
     # ... and after every close(x.done): the goroutines that wait for a pool may
     # run before the closing goroutine goes on (the simulator's workers have one
     # P, so without this the closer always finishes what follows first)
